@@ -6,6 +6,7 @@ from .. import inputs
 from . import geom
 
 SPEC = dict(
+    technique='Lean 4 proof (pose·point = R p + t in every call form; regenerated model) + float monitor',
     lean_modules=['SmVerif.Props.C06', 'SmVerif.Props.Structure'],
     groups=['Poses', 'Quaternions', 'Quats', 'TransformsNd'],
     expected_untranslatable=('UQ_interp', 'UQ_interp_shortest'),
